@@ -25,6 +25,7 @@ RULE = (
     "x (extra dims: none, p, p x q with equal lengths) x (parameters via constructor / set_prms / set_prms on a model whose tables had already been read with other parameters). Every entry of "
     "sf and pdf is compared with the model (1e-12) and the structural invariants are evaluated on every table. "
     "Non-trivial = table with >= 3 cohorts (all are). Distinct by construction."
+    " Also: models configured by attribute assignment, with re-parametrised shallow copies, after use by stocks, with parameters nudged by 2**-20 after a table read; sub-annual grids; 12 x 100 models differing only in the interior of the parameter array."
 )
 ASSUMPTIONS = [
     "closed forms via math.erfc/exp/log agree with scipy.stats to ~2e-16 (calibrated); tolerance 1e-12",
